@@ -70,10 +70,10 @@ ASSUMPTIONS = [
     'read chunk boundaries are not compared, only concatenated bytes and data-before-close order',
     'live scenarios avoid conversations whose outcome depends on a race in every mode alike (client aborting '
     'mid-transfer, pipelined requests: findings D13/D12 under C04)',
-    'an exception escaping handle_events while client output is pending (finding D17: threaded _flush() delivers '
+    'an exception escaping handle_events while client output is pending (finding D30: threaded _flush() delivers '
     'it, threadless drops it) is outside the proved theorem (hypothesis hx of C17_same_transcript_partial); the '
     'handler-level comparison checks that model and code agree on that difference, the cross-mode oracle judges '
-    'it only when known_findings.json lists D17',
+    'it only when known_findings.json lists D30',
 ]
 TRUSTED_EXTRA = [
     'live differential harness: scenario corpus, origin servers, transcript canonicaliser, /proc scans',
@@ -102,7 +102,7 @@ def _finding_listed(fid):
         return False
 
 
-D17_LISTED = _finding_listed('D17')
+D17_LISTED = _finding_listed('D30')
 D17_SIG = 'exception-with-pending-output: threaded delivers it, threadless drops it'
 
 
@@ -479,7 +479,7 @@ def _h_oracle(case):
         return None
     raised_pending = (lo['end'] == 'raised' and lo['pending']) or (th['end'] == 'raised' and th['pending'])
     if raised_pending and not D17_LISTED:
-        return None                 # finding D17 (see ASSUMPTIONS); judged when listed
+        return None                 # finding D30 (see ASSUMPTIONS); judged when listed
     if lo['end'] != th['end']:
         return 'loop-ends-differ: local=%s threaded=%s' % (lo['end'], th['end'])
     if raised_pending:
@@ -1068,7 +1068,7 @@ def build_convs(case, pport):
             return [('send', get(b'/len/%d' % sz, b'Proxy-Authorization: Basic dXNlcjpwYXNz\r\n')), ('http',),
                     ('shut',), ('eof',)]
         if scn == 'raised_pending':
-            # finding D17, live form (NOT in the corpus: byte counts depend on kernel buffer sizes): the client
+            # finding D30, live form (NOT in the corpus: byte counts depend on kernel buffer sizes): the client
             # does not read a large response, then sends a follow-up request that makes the pipeline parser raise
             return [('send', get(b'/len/%d' % sz)), ('sleep', 1.0),
                     ('send', get(b'/len/1', b'Content-Length: x\r\n')), ('sleep', 0.3), ('eof',)]
@@ -1431,7 +1431,7 @@ def oracle(case):
 
 def classify(case, sig):
     if case.get('kind') == 'h' and sig == D17_SIG:
-        return 'D17'
+        return 'D30'
     return None
 
 
@@ -1449,7 +1449,7 @@ def d17_witness():
 
 
 def finding_witnesses():
-    return {'D17': d17_witness()}
+    return {'D30': d17_witness()}
 
 
 # -- cases -------------------------------------------------------------------------
